@@ -99,6 +99,9 @@ def build_special(v):
         return datetime.datetime(*v[1], tzinfo=datetime.timezone.utc).astimezone(tz)
     if kind == "date":
         return datetime.date(*v[1])
+    if kind == "nulltrans":
+        import gettext
+        return gettext.NullTranslations()     # a message catalog handed in by the caller (the `translations` variable)
     raise AssertionError(v)
 
 
@@ -268,4 +271,8 @@ def fingerprint(obj, _depth=0):
         return (t, tuple(fingerprint(x, _depth + 1) for x in obj))
     if isinstance(obj, (datetime.datetime, datetime.date)):
         return (t, obj.isoformat(), repr(getattr(obj, "tzinfo", None)))
+    d = getattr(obj, "__dict__", None)
+    if isinstance(d, dict) and not callable(obj):
+        # any other object the caller hands in: its attributes, not its address
+        return ("obj:" + t, tuple((str(k), fingerprint(v, _depth + 1)) for k, v in sorted(d.items(), key=lambda kv: str(kv[0]))))
     return (t, repr(obj))
